@@ -204,7 +204,8 @@ def translate(repo):
     defs = []
 
     def emit(sig, body, doc):
-        defs.append("/-- %s -/\ndef %s :=\n  %s\n" % (doc, sig, body))
+        kw = "abbrev" if sig.rstrip().endswith(": Prop") else "def"
+        defs.append("/-- %s -/\n%s %s :=\n  %s\n" % (doc, kw, sig, body))
 
     # ---- utils.py ------------------------------------------------------------------
     u = Source(repo, "codelimit/common/utils.py")
@@ -433,7 +434,7 @@ def translate(repo):
              "len(children_token_ranges) > 0": "(P:True)", "len(children_token_ranges) == 0": "(P:False)"}, su.rel)
     emit("scope_tokens_pops (i ce : Int) : Prop", tr.prop(w.test), "`_scope_tokens`: the first remaining child range is dropped at index `i`")
     emit("scope_tokens_keeps (i cs : Int) : Prop", tr.prop(loop.body[1].test), "`_scope_tokens`: the token at index `i` is kept, given a remaining child range starting at `cs`")
-    out = ["import CodeLimit.Model.Pct",
+    out = ["import CodeLimit.Model.Pct", "set_option linter.unusedVariables false",
            "/-! GENERATED by translator/logic.py from the Python source in /repo - do not edit.",
            "Integer decision logic of Code Limit, one definition per decision site. -/",
            "namespace CL.Gen.Logic", ""] + defs + ["end CL.Gen.Logic"]
